@@ -548,38 +548,47 @@ func checkSensorReaders(c *Ctx, r *Report) {
 	r.Rule("reader-parser-from-table", "the parser stored in a sensor reader is the result of the record's AnalogDataFormat.Parser() itself", 1)
 	{
 		nSt := 0
-		viewInstrs(ctor, func(in ssa.Instruction) {
-			st, ok := in.(*ssa.Store)
-			if !ok {
-				return
+		// (wherever in the library a reader is given its parser: the per-kind constructors may be
+		// reached through a dispatch table rather than spliced into NewSensorReader's view)
+		for _, pfn := range c.LibFuncs() {
+			pfn := pfn
+			if !c.libFn(pfn) {
+				continue
 			}
-			fa, ok := st.Addr.(*ssa.FieldAddr)
-			if !ok {
-				return
-			}
-			f := structField(fa.X.Type(), fa.Field)
-			if f == nil || types.TypeString(f.Type(), nil) != modPath+"/pkg/ipmi.AnalogDataFormatParser" {
-				return
-			}
-			nSt++
-			okP, why := true, ""
-			os := viewOrigins(ctor, st.Val)
-			if len(os) == 0 {
-				os = []ssa.Value{st.Val}
-			}
-			for _, o := range os {
-				ex, isEx := stripConv(o).(*ssa.Extract)
-				if !isEx || ex.Index != 0 {
-					okP, why = false, exprText(o)
-					continue
+			rawInstrs(pfn, false, func(in ssa.Instruction) {
+				ctor := pfn
+				st, ok := in.(*ssa.Store)
+				if !ok {
+					return
 				}
-				call, isCall := ex.Tuple.(*ssa.Call)
-				if !isCall || calleeName(&call.Call) != "("+modPath+"/pkg/ipmi.AnalogDataFormat).Parser" {
-					okP, why = false, exprText(o)
+				fa, ok := st.Addr.(*ssa.FieldAddr)
+				if !ok {
+					return
 				}
-			}
-			r.Check(okP, name+"|parser ← AnalogDataFormat.Parser()", st.Pos(), "the table's parser for the record's analog data format", "the reader's parser is not the one the record's analog data format selects ("+why+"): the raw byte is not interpreted as the record states")
-		})
+				f := structField(fa.X.Type(), fa.Field)
+				if f == nil || types.TypeString(f.Type(), nil) != modPath+"/pkg/ipmi.AnalogDataFormatParser" {
+					return
+				}
+				nSt++
+				okP, why := true, ""
+				os := viewOrigins(ctor, st.Val)
+				if len(os) == 0 {
+					os = []ssa.Value{st.Val}
+				}
+				for _, o := range os {
+					ex, isEx := stripConv(o).(*ssa.Extract)
+					if !isEx || ex.Index != 0 {
+						okP, why = false, exprText(o)
+						continue
+					}
+					call, isCall := ex.Tuple.(*ssa.Call)
+					if !isCall || calleeName(&call.Call) != "("+modPath+"/pkg/ipmi.AnalogDataFormat).Parser" {
+						okP, why = false, exprText(o)
+					}
+				}
+				r.Check(okP, c.FnName(pfn)+"|parser ← AnalogDataFormat.Parser()", st.Pos(), "the table's parser for the record's analog data format", "the reader's parser is not the one the record's analog data format selects ("+why+"): the raw byte is not interpreted as the record states")
+			})
+		}
 		if nSt == 0 {
 			r.Unk(name+"|parser field", ctor.Pos(), "no store of an AnalogDataFormatParser into a reader found in the constructor's view")
 		}
